@@ -27,6 +27,13 @@ impl<A, D: Dimension> ArrayN<A, D> {
     pub fn ndim(&self) -> (n: usize)
     { unimplemented!() }
 
+    // the shape (axis lengths); arrays of equal shape have equally many elements
+    pub uninterp spec fn shape_spec(&self) -> Seq<usize>;
+    #[verifier::external_body]
+    pub fn shape(&self) -> (r: &[usize])
+        ensures r@ == self.shape_spec()
+    { unimplemented!() }
+
     #[verifier::external_body]
     pub fn first(&self) -> (r: Option<&A>)
         ensures
